@@ -2,6 +2,8 @@
 impl BigUint {
     pub closed spec fn v(&self) -> nat { val(self.data@) }
     pub closed spec fn wf(&self) -> bool { wf(self.data@) }
+    /// digit sequence (for contracts of `pub` functions, which may not mention the private field)
+    pub closed spec fn dg(&self) -> Seq<u64> { self.data@ }
 }
 
 /// stripping most-significant zeros keeps the value
